@@ -5,7 +5,7 @@ import OW.Util.ExprFn
 /- Protocol handlers for util/fn: `FR` (FindRoot) and `PW` (Piecewise). Owned by the C18 work.
 
 `FR id mono L <expr> hasD [<dexpr>] initialX minX maxX tol conv maxIter`
-      → `ok x delta nf evals… nd devals…` | `panic other`
+      → `ok x delta nf evals… nd devals… | <exit tag>` | `panic other`
    (`mono`, `L` are oracle hints for the Go side: function non-decreasing by construction, Lipschitz bound; the
     model ignores them. `evals`/`devals` in call order.)
 `PW id x nx xs… ny ys…` → `val y` | `err` | `panic index-out-of-range`
@@ -41,7 +41,7 @@ def handleFR (args : Toks) : String :=
     -- `for iteration := 0; iteration < maxIterations` with a negative limit runs zero times
     match OW.Fn.findRoot e.eval (d.map (fun (e : Expr Float) => e.eval)) initialX minX maxX tol conv maxIter.toNat with
     | .error c => "panic " ++ c
-    | .ok r => joinToks ["ok", fmtF r.x, fmtF r.delta, fmtFs r.evals.reverse, fmtFs r.devals.reverse]
+    | .ok r => joinToks ["ok", fmtF r.x, fmtF r.delta, fmtFs r.evals.reverse, fmtFs r.devals.reverse] ++ " | " ++ r.exit.name
 
 def handlePW (args : Toks) : String :=
   match (do
